@@ -34,7 +34,7 @@ Spells == {"num", "12", "star"}
 (* included - may also be spelled with three entries                                              *)
 OptTr == { [has |-> FALSE, tr |-> NoTr, spell |-> "num"] }
          \cup { [has |-> TRUE, tr |-> t, spell |-> s] : t \in TrSet, s \in Spells }
-         \cup { [has |-> TRUE, tr |-> t, spell |-> "3"] : t \in { x \in TrSet \cup {NoTr} : x.m = IdM } }
+         \cup { [has |-> TRUE, tr |-> t, spell |-> sp] : t \in { x \in TrSet \cup {NoTr} : x.m = IdM }, sp \in {"3", "star3"} }
 SmallTr == { [has |-> FALSE, tr |-> NoTr, spell |-> "num"] }
            \cup { [has |-> TRUE, tr |-> t, spell |-> s] : t \in { x \in TrSet : x.m = IdM \/ Lvl = 2 }, s \in {"num", "12"} }
 
